@@ -174,3 +174,73 @@ Definition payload_wf (k : mclass) (m : xml) : bool :=
     | _ => true
     end
   end.
+
+(* ---- C06: the IDs a story-level / item-level message names and that must be found
+   (a blank entry is a name that cannot be found) *)
+Definition opt_list {A} (o : option A) : list (option A) := match o with Some _ => [o] | None => [] end.
+Definition named_story_ids (k : mclass) (b : xml) : list (option str) :=
+  match k with
+  | StorySend => match convert_story_send b with Some s => [story_id s] | None => [] end
+  | StoryDelete => id_tags t_storyID b
+  | EAStoryDelete => ea_source_ids t_storyID b
+  | StoryInsert | StoryReplace => [first_story_id b]
+  | EAStoryReplace => [ea_target_id t_storyID b]
+  | EAStoryInsert => opt_list (ea_target_id t_storyID b)
+  | StoryMove =>
+    match story_move_source b with
+    | Some src => src :: opt_list (story_move_target b)
+    | None => []
+    end
+  | EAStoryMove => ea_source_ids t_storyID b ++ opt_list (ea_target_id t_storyID b)
+  | EAStorySwap => ea_first_source_ids t_storyID b
+  | _ => []
+  end.
+Definition named_item_ids (k : mclass) (b : xml) : list (option str) :=
+  match k with
+  | ItemDelete => id_tags t_itemID b
+  | EAItemDelete => ea_source_ids t_itemID b
+  | ItemInsert => opt_list (first_item_id b)
+  | EAItemInsert => opt_list (ea_target_id t_itemID b)
+  | ItemReplace => [first_item_id b]
+  | EAItemReplace => [ea_target_id t_itemID b]
+  | ItemMoveMultiple =>
+    imm_sources b ++ match imm_target b with Some (Some t) => [Some t] | _ => [] end
+  | EAItemMove => ea_first_source_ids t_itemID b ++ opt_list (ea_target_id t_itemID b)
+  | EAItemSwap => ea_first_source_ids t_itemID b
+  | _ => []
+  end.
+Definition present (ids : list (option str)) (id : option str) : bool :=
+  match id with Some s => sp_mem str_eqb s ids | None => false end.
+
+(* ---- C03: what a message names.  An element is "touched" when it is keyed and its ID is
+   among the IDs the message names or carries *)
+Definition touched (kof : xml -> kres str) (ids : list (option str)) (x : xml) : bool :=
+  match kof x with KKey id => mem_ostr id ids | _ => false end.
+Definition untouched (kof : xml -> kres str) (ids : list (option str)) (l : list xml) : list xml :=
+  filter (fun x => negb (touched kof ids x)) l.
+Definition story_payload (k : mclass) (b : xml) : list xml :=
+  match k with
+  | StorySend => match convert_story_send b with Some s => [s] | None => [] end
+  | StoryAppend | StoryInsert | StoryReplace => carried t_story b
+  | EAStoryInsert | EAStoryReplace => ea_carried t_story b
+  | _ => []
+  end.
+Definition item_payload (k : mclass) (b : xml) : list xml :=
+  match k with
+  | ItemInsert | ItemReplace => carried t_item b
+  | EAItemInsert | EAItemReplace => ea_carried t_item b
+  | _ => []
+  end.
+Definition story_touch_ids (k : mclass) (b : xml) : list (option str) :=
+  named_story_ids k b ++ map story_id (story_payload k b).
+Definition item_touch_ids (k : mclass) (b : xml) : list (option str) :=
+  named_item_ids k b ++ map item_id (item_payload k b).
+
+(* roMetadataReplace: a child of roCreate is matched by a carried element with the same
+   tag - for mosExternalMetadata, the same tag and mosSchema *)
+Definition md_same (src c : xml) : bool :=
+  if has_tag t_mosExternalMetadata src
+  then has_tag t_mosExternalMetadata c &&
+       ostr_eqb (findtext t_mosSchema (kids_of c)) (findtext t_mosSchema (kids_of src))
+  else has_tag (tag_of src) c.
+Definition md_matched (srcs : list xml) (c : xml) : bool := existsb (fun s => md_same s c) srcs.
